@@ -109,16 +109,22 @@ def r05_1(ck, F):
     fam = F.family(HANDLE_RECEIVED)
     reqs = [(x, bb, t) for x in fam for bb, t in x.calls("chmux::listener::Request::new")]
     n_ok = 0
+    from robs_common import event_arms
+    hr_arms, _sw, _ = event_arms(hr, MUX_MSG)
     for x, bb, t in reqs:
         e_port, e_id = x.expr(t["a"][0]), x.expr(t["a"][1])
-        if x is hr:
+        if x is hr and bb in hr_arms["OpenPort"][2]:
             ok = (e_id[0] == "call" and e_id[1] == "std::option::Option::unwrap_or" and mir.same_value(e_id[2][1], e_port)
                   and mir.last_field(e_id[2][0]) == "id" and mir.last_field(e_port) == "client_port")
             ck.expect(ok, "handle_received_msg#OpenPort", "Request(client_port, id.unwrap_or(client_port))",
                       f"OpenPort request built from ({mir.show(e_port)}, {mir.show(e_id)})", x.loc(bb))
         else:
-            ok = e_port[0] == "path" and e_id[0] == "path" and e_port[1].split(".")[0] == e_id[1].split(".")[0] and \
-                e_port[1].split(".")[-1] == "0" and e_id[1].split(".")[-1] == "1"
+            # the two components of one zipped (port, id) item: closure parameter `pair.0` / `pair.1`, or the loop item
+            # `next(zip(ports, ids)).@Some.0.0` / `.1`
+            sp, si = mir.show(e_port), mir.show(e_id)
+            ok = sp.endswith(".0") and si.endswith(".1") and sp[:-2] == si[:-2]
+            if ok and x is hr:
+                ok = "zip" in sp and "ports" in sp and "ids" in sp
             ck.expect(ok, "handle_received_msg#PortData-pair", "Request(pair.0, pair.1) of the zipped (port, id) pair",
                       f"PortData request built from ({mir.show(e_port)}, {mir.show(e_id)})", x.loc(bb))
         n_ok += 1
